@@ -72,6 +72,21 @@ func (c *Ctx) pathLengthsTable() {
 			}
 		}
 	}
+	if lObj != nil {
+		// `step := helper(branch, metric)`: the local only names the helper's result
+		n, def := 0, ast.Expr(nil)
+		forAssignsTo(info, fi.Decl.Body, lObj, func(rhs ast.Expr, multi, incdec bool) {
+			n++
+			def = rhs
+		})
+		if n == 1 && def != nil {
+			if cl, isCall := unparen(def).(*ast.CallExpr); isCall && inRepo(calleeOf(info, cl)) && c.FuncOfObj(calleeOf(info, cl)) != nil {
+				if _, isGetter := c.getters[calleeOf(info, cl)]; !isGetter {
+					hcall, lObj = cl, nil
+				}
+			}
+		}
+	}
 	if lObj == nil && hcall == nil {
 		c.Violation("TABLE", name+"/accumulate", rec.Pos(), "the walk does not pass on curlength + (value of the branch): got "+c.src(rec.Args[3])).Clause = clause
 		return
